@@ -382,7 +382,11 @@ impl ServerInstance {
         let rt = self.rt.take().unwrap();
         // Drop our handle on the System before the runtime goes away.
         drop(self);
+        // Panics raised while the runtime is being torn down (tasks polled during shutdown of the
+        // blocking pool) are artefacts of stopping, not of any request: discard them.
+        let mark = PANICS.lock().unwrap().len();
         drop_runtime(rt).await;
+        PANICS.lock().unwrap().truncate(mark);
         server::verif::reset_process_globals();
         res
     }
